@@ -364,6 +364,11 @@ class TransferManager(BaseManager):
             logger.exception("error aborting transfer before removal : %s", transfer)
         finally:
             self._transfers.remove(transfer)
+            # The transfer could be in a state that cannot be aborted while a
+            # task is still running for it (eg.: a failed download that is
+            # being requeued): nothing should keep running for a transfer that
+            # is no longer managed
+            await asyncio.gather(*transfer.cancel_tasks(), return_exceptions=True)
             await self._event_bus.emit(TransferRemovedEvent(transfer))
 
         self.request_management_cycle(_RequestFlag.TRANSFER_CHANGE)
